@@ -395,8 +395,9 @@ class Dimension:
         """Registers a new named dimension derived from other dimension"""
         if cls._by_name.get(name, dimension) is not dimension:
             raise ValueError(f"A dimension named {name} is already defined")
+        symbol = symbol or str(dimension)
         dimension.name = name
-        dimension.symbol = symbol or str(dimension)
+        dimension.symbol = symbol
         cls._by_name[name] = dimension
         return dimension
 
